@@ -106,6 +106,11 @@ func (f *FuncFacts) callEvent(kind string, cc *ssa.CallCommon) *Event {
 			}
 		}
 	}
+	if acq, _, ok := syncLockOp(name); ok && !acq && (kind == "call" || kind == "defer") && len(args) > 0 {
+		// releasing a mutex: that it happens on every exit is decided by the lock-balance rule
+		// (balance.go); whether it is written as a defer or before each return is layout
+		return &Event{Kind: "release", Name: name[strings.LastIndex(name, ".")+1:] + " " + args[0]}
+	}
 	ev := &Event{Kind: kind, Name: name, Args: strings.Join(args, ",")}
 	if kind == "call" {
 		if isObserver(name) {
